@@ -42,9 +42,18 @@ ExpRes(e) ==
     [] e.op = "badbound"   -> {<<"TypeError">>, <<"ValueError">>}      \* (which of the two is C09's business)
     [] e.op = "keys"       -> {<<"ks", SM!RangeKeys(Keys_, e.lo, e.hi, e.xlo, e.xhi)>>}
     [] e.op = "len"        -> {<<"v", Len(Keys_)>>}
+    [] e.op = "bool"       -> {<<"v", IF Len(Keys_) > 0 THEN 1 ELSE 0>>}
+    [] e.op = "haskey"     -> {<<"v", IF Has_(e.k) THEN 1 ELSE 0>>}
+    [] e.op = "values"     -> {LET ks == SM!RangeKeys(Keys_, e.lo, e.hi, e.xlo, e.xhi) IN <<"ks", [j \in 1..Len(ks) |-> m[ks[j]]]>>}
+    [] e.op = "index"      -> {LET ks == SM!RangeKeys(Keys_, e.lo, e.hi, e.xlo, e.xhi)
+                                   i  == IF e.k < 0 THEN e.k + Len(ks) ELSE e.k
+                               IN IF i < 0 \/ i >= Len(ks) THEN <<"IndexError">> ELSE <<"kv", ks[i + 1], m[ks[i + 1]]>>}
+    [] e.op = "insertu"    -> {<<"v", IF Has_(e.k) THEN 0 ELSE 1>>}
+    [] e.op = "popmin"     -> {IF Len(Keys_) = 0 THEN <<"KeyError">> ELSE <<"kv", Keys_[1], m[Keys_[1]]>>}
     [] e.op = "iter"       -> {<<"ks", Keys_>>}
     [] OTHER               -> {<<"ok">>}
-IsRead(e) == e.op \in {"get", "getitem", "contains", "badget", "minkey", "maxkey", "badbound", "keys", "len", "iter", "badwrite"}
+IsRead(e) == e.op \in {"get", "getitem", "contains", "badget", "minkey", "maxkey", "badbound", "keys", "len", "iter", "badwrite",
+                        "bool", "haskey", "values", "index"}
 Stutter == UNCHANGED pvars
 
 NewRegs == Len(reg') - Len(reg)
@@ -86,12 +95,12 @@ PathI(h, self, k) == LET s == h[self] IN
        IF h[c].t = "L" THEN {self} ELSE {self} \cup PathI(h, c, k)
 D35Prone(e) ==
   /\ PImpl = "py" /\ e.swept = 1
-  /\ e.op \in {"setitem", "delitem", "pop", "setdefault"}
+  /\ e.op \in {"setitem", "delitem", "pop", "setdefault", "insertu", "popmin"}
   /\ LET ghosted == PathI(heap, Root, e.k) \cap Evictable
          leaf == FindLeaf(heap, Root, e.k)
      IN /\ ghosted # {}
         /\ \/ leaf # Nil /\ leaf \notin oids
-           \/ /\ e.op \in {"delitem", "pop"} /\ Has_(e.k)
+           \/ /\ e.op \in {"delitem", "pop", "popmin"} /\ Has_(e.k)
               /\ LET r == PDelR(heap, oids, Root, e.k) IN \E id \in ghosted : r.h[id] # heap[id]
 
 TNext ==
@@ -102,6 +111,8 @@ TNext ==
         \/ /\ e.op \in {"delitem", "pop"} /\ PDelItem(e.k)
         \/ /\ e.op = "setdefault" /\ (IF Has_(e.k) THEN Stutter ELSE PSetItem(e.k, e.v))
         \/ /\ e.op = "clear" /\ PClear
+        \/ /\ e.op = "insertu" /\ PInsertU(e.k, e.v)
+        \/ /\ e.op = "popmin" /\ PPopMin
         \/ /\ IsRead(e) /\ Stutter
         \/ /\ e.op = "commit" /\ Commit
         \/ /\ e.op = "abort" /\ Abort
